@@ -104,7 +104,8 @@ class NormMonitor:
                 ctx.hit(f"piece:{name}:{piece}")
             e = ref(x, y)
             if not near(r, e, tolerance(name, x, y)):
-                if piece and 0 < dist <= 1e-12:
+                if piece and 0 < dist <= 1e-12 and not name.startswith("Drastic"):
+                    # (the drastic norms branch on an operand being exactly 0 or 1: nothing is rounded, nothing is ambiguous)
                     ctx.hit("ambiguous:next to a branch point")
                 else:
                     ctx.violation(f"{name}: value differs from the documented formula", {"norm": name, "a": x, "b": y, "piece": piece}, e, r)
@@ -198,7 +199,7 @@ def run(ctx):
     )
     ctx.assumptions += [
         "tolerance 0 for min/max/bounded/drastic/nilpotent norms (exact arithmetic on the dyadic grid), 1e-12 for Algebraic/Einstein/Hamacher/Normalized",
-        "a mismatch within 1e-12 of a branch point of the definition is counted ambiguous, not a violation",
+        "a mismatch within 1e-12 of a branch point that depends on a rounded sum or product (a+b = 1, ab = 1) is counted ambiguous, not a violation; the drastic norms branch on an operand being exactly 0 or 1 and are judged everywhere",
         "NormalizedSum is exempt from associativity (as the property says)",
     ]
     grid = np.array([k / 2**m for k in range(2**m + 1)])
@@ -237,6 +238,16 @@ def run(ctx):
                     for ia, ib, ic in bad[:3]:
                         ctx.violation(f"{name}: not associative", {"norm": name, "a": grid[ia], "b": grid[ib], "c": grid[ic]}, float(right[ia, ib, ic]), float(left[ia, ib, ic]))
                 ctx.sample("grid", {"norm": name, "grid": f"k/2^{m}, {len(grid)}^2 pairs, {len(grid)}^3 triples", "example": {"a": 0.25, "b": 0.75, "result": float(norm.compute(0.25, 0.75))}})
+        # 1b. every pair of extreme magnitudes (products and sums that underflow, the neighbours of 0, 1/2 and 1, negative zero)
+        extremes = np.array([0.0, -0.0, 5e-324, 1e-310, 1e-300, 1e-200, 1e-160, 2.0**-537, 1e-17, 2.0**-53, 0.5 - 2.0**-54, 0.5, 0.5 + 2.0**-53, 1 - 2.0**-53, 1.0])
+        for i, rnd in ctx.cases("extremes", len(names)):
+            with ctx.guarded():
+                norm = getattr(fl, names[i])()
+                norm.compute(extremes[:, None], extremes[None, :])
+                for a in extremes:
+                    for b in extremes[::3]:
+                        norm.compute(float(a), float(b))
+                ctx.hit("workload:pairs of extreme magnitudes")
         # 2. random doubles, several operand forms
         nchunks = ctx.scale(8, 64)
         for i, rnd in ctx.cases("random", len(names) * nchunks):
@@ -267,7 +278,7 @@ def run(ctx):
                         norm.compute(x, y)
                         norm.compute(y, x)
                 # the same operands in other memory layouts and element types
-                if i % 4 == 0:
+                if (i // len(names)) % 2 == 0:
                     A2, B2 = np.array(a[:24]).reshape(4, 6), np.array(b[:24]).reshape(4, 6)
                     ro = np.array(b[:6])
                     ro.flags.writeable = False
@@ -324,7 +335,7 @@ def run(ctx):
         reach.report(ctx)
     ctx.exhaustive = True
     ctx.extra["exhaustive_space"] = f"all pairs and triples of the dyadic grid k/2^{m} per norm (plus non-exhaustive random doubles)"
-    ctx.require("operand form:transposed", "operand form:0-d with batch", "operand form:read-only row broadcast over a batch")
+    ctx.require("workload:pairs of extreme magnitudes", "operand form:transposed", "operand form:0-d with batch", "operand form:read-only row broadcast over a batch")
     for name in R.REF:
         ctx.require(f"hook:{name}.compute")
     if ctx.nshards == 1 or True:
